@@ -105,6 +105,7 @@ def _work(arg):
         res = mod.run_unit(unit, tier)
         # make violations picklable / JSON-able early
         for v in res.violations.values():
+            v["unit"] = unit
             v["case"] = enc(v["case"])
             v["observed"] = _short(v["observed"])
             v["expected"] = _short(v["expected"])
@@ -112,6 +113,29 @@ def _work(arg):
         return ("ok", res.counts, res.states, res.outcomes, res.violations, res.samples, res.notes)
     except BaseException:  # harness error, never a verdict
         return ("error", unit, traceback.format_exc())
+
+
+def _fresh(arg):
+    """Run one unit in a fresh forked process."""
+    ctx = multiprocessing.get_context("fork")
+    with ctx.Pool(1, maxtasksperchild=1) as pool:
+        return pool.apply(_work, (arg,))
+
+
+def _replay_work(arg):
+    pid, case = arg
+    try:
+        vs = _module(pid).replay(dec(case))
+        return [{"sig": v["sig"], "msg": v["msg"], "observed": _short(v["observed"], 2000),
+                 "expected": _short(v["expected"], 2000)} for v in vs]
+    except BaseException:
+        return traceback.format_exc()
+
+
+def _fresh_replay(pid, case):
+    ctx = multiprocessing.get_context("fork")
+    with ctx.Pool(1, maxtasksperchild=1) as pool:
+        return pool.apply(_replay_work, ((pid, case),))
 
 
 def _short(x, n=600):
@@ -130,6 +154,8 @@ def run_property(pid, tier, jobs, seed, quiet=False):
     t0 = time.time()
     mod = _module(pid)
     units = mod.units(tier)
+    if hasattr(mod, "prepare"):
+        mod.prepare(tier)  # warm pure-data caches (terms, documents) before forking; runs no valida code
     total = Result()
     errors = []
     order = list(range(len(units)))
@@ -141,11 +167,14 @@ def run_property(pid, tier, jobs, seed, quiet=False):
     args = [(pid, tier, units[i]) for i in order]
     if jobs > 1 and len(units) > 1:
         ctx = multiprocessing.get_context("fork")
-        with ctx.Pool(min(jobs, len(units))) as pool:
+        # one fresh forked process per unit: no state can leak from one unit into another, so a
+        # unit is a deterministic, replayable execution even if the code under test keeps hidden
+        # module- or class-level state
+        with ctx.Pool(min(jobs, len(units)), maxtasksperchild=1) as pool:
             it = pool.imap_unordered(_work, args, chunksize=1)
             outs = list(it)
     else:
-        outs = [_work(a) for a in args]
+        outs = [_fresh(a) for a in args]
     for out in outs:
         if out[0] == "error":
             errors.append(out)
@@ -169,16 +198,25 @@ def run_property(pid, tier, jobs, seed, quiet=False):
     rc = 0
     for n, (sig, v) in enumerate(sorted(total.violations.items(), key=lambda kv: (_size(kv[1]), kv[0]))):
         # re-execute once from the stored case (a non-reproducing violation is a harness error)
-        try:
-            again = mod.replay(dec(v["case"]))
-        except BaseException:
-            print("HARNESS-ERROR property=%s replay of %s raised" % (pid, sig))
-            traceback.print_exc()
+        # (in a fresh process: the parent never executes code under test, so that every forked
+        # worker starts from the same pristine state)
+        again = _fresh_replay(pid, v["case"])
+        if isinstance(again, str):
+            print("HARNESS-ERROR property=%s replay of %s raised\n%s" % (pid, sig, again))
             return 2
+        history_dependent = False
         if not again:  # (a replay may meet another invariant of the same property first: still confirmed)
-            print("HARNESS-ERROR property=%s violation %r did not reproduce on replay (got %r)"
-                  % (pid, sig, [a["sig"] for a in again]))
-            return 2
+            # The case alone does not fail.  Every case runs on freshly built objects, so the only way
+            # a case can depend on the cases before it is hidden state kept by the code under test
+            # (module / class level).  Re-run the whole unit in a fresh process: if the violation
+            # comes back it is deterministic and replayable as "this unit, from a fresh process".
+            out = _fresh((pid, tier, v["unit"]))
+            if out[0] == "ok" and sig in out[4]:
+                history_dependent = True
+            else:
+                print("HARNESS-ERROR property=%s violation %r did not reproduce on replay (got %r)"
+                      % (pid, sig, [a["sig"] for a in again]))
+                return 2
         if sig in known_sigs:
             known_hit.append((sig, v))
             continue
@@ -186,6 +224,7 @@ def run_property(pid, tier, jobs, seed, quiet=False):
         with open(path, "w") as fh:
             json.dump({"property": pid, "signature": sig, "message": v["msg"], "case": v["case"],
                        "observed": v["observed"], "expected": v["expected"], "occurrences": v["n"],
+                       "unit": v.get("unit"), "tier": tier, "history_dependent": history_dependent,
                        "replay_cmd": "./check %s --replay %s" % (pid, os.path.relpath(path, VERIF))},
                       fh, indent=1, default=repr)
         unknown.append((sig, v, path))
@@ -260,7 +299,18 @@ def run_replay(pid, path):
     with open(path) as fh:
         rec = json.load(fh)
     case = dec(rec["case"])
-    vs = mod.replay(case)
+    if rec.get("history_dependent"):
+        # fails only after the cases that precede it in its unit (hidden state in the code under test):
+        # replay = that unit from a fresh process
+        out = _fresh((pid, rec.get("tier", "quick"), rec["unit"]))
+        vs = [] if out[0] != "ok" else [dict(v, msg=v["msg"] + " [history-dependent: reproduced by re-running unit %r "
+                                             "from a fresh process]" % (rec["unit"],)) for s_, v in out[4].items()
+                                        if s_ == rec["signature"]]
+    else:
+        vs = _fresh_replay(pid, rec["case"])
+        if isinstance(vs, str):
+            print(vs)
+            return 2
     print("replaying %s: %s" % (path, rec.get("signature")))
     print("case:", json.dumps(rec["case"])[:2000])
     if not vs:
@@ -270,8 +320,8 @@ def run_replay(pid, path):
         print("VIOLATION property=%s replay=%s" % (pid, path))
         print("   signature:", v["sig"])
         print("   ", v["msg"])
-        print("   observed:", _short(v["observed"], 2000))
-        print("   expected:", _short(v["expected"], 2000))
+        print("   observed:", _short(v.get("observed"), 2000))
+        print("   expected:", _short(v.get("expected"), 2000))
     return 1
 
 
